@@ -392,6 +392,12 @@ func c07Compare(c *vk.Ctx, key string, a *app.App, cfg app.Config, hist []string
 				continue
 			}
 			pr := app.NewPerRequest(a, cfg, b)
+			// every third case: two long-lived store handles (two workers) serve the session's requests in turn
+			if vk.Hash64(key, "alternate-handles")%3 == 0 {
+				pr.AlternateHandles = true
+				c.Count("histories_served_through_two_long_lived_handles_in_turn:"+bk, 1)
+			}
+			defer pr.Close()
 			// every fourth case: at PRNG points the store refuses the save once (session data type locked while Finish
 			// runs); the client sees the error, the lock is lifted, Finish is repeated - and nothing may be different
 			rf := c.RNG(key + "/refuse-finish/" + bk)
